@@ -399,8 +399,24 @@ def run_property(modname, tier, seed, workers=None):
         results = [_run_worker(jobs[0])]
     else:
         ctxmp = multiprocessing.get_context("fork")
-        with ctxmp.Pool(nshards) as pool:
-            results = pool.map(_run_worker, jobs, chunksize=1)
+        results = []
+        # workers stop by themselves at the wall budget; the parent waits that long plus a grace period for the case in flight and
+        # then gives up on workers that have not returned (seen once: a change under test left workers asleep on a lock for hours)
+        deadline = time.time() + budget["wall"] + float(os.environ.get("YV_GRACE", "900"))
+        pool = ctxmp.Pool(nshards)
+        try:
+            it = pool.imap_unordered(_run_worker, jobs, chunksize=1)
+            for _ in jobs:
+                try:
+                    results.append(it.next(timeout=max(1.0, deadline - time.time())))
+                except multiprocessing.TimeoutError:
+                    total.harness_errors.append(
+                        f"{len(jobs) - len(results)} of {len(jobs)} worker(s) did not return within the wall budget plus grace period and were terminated (hung case?)"
+                    )
+                    break
+        finally:
+            pool.terminate()
+            pool.join()
     for r in results:
         total.merge(r)
     fuzz_info = run_fuzz_children(mod, modname, tier, seed, total)
